@@ -222,6 +222,10 @@ func StoreUint64(p *uint64, v uint64, what string) {
 	Point("StoreUint64 " + what)
 	atomic.StoreUint64(p, v)
 }
+func SwapUint64(p *uint64, v uint64, what string) uint64 {
+	Point("SwapUint64 " + what)
+	return atomic.SwapUint64(p, v)
+}
 func CompareAndSwapUint64(p *uint64, o, n uint64, what string) bool {
 	Point("CompareAndSwapUint64 " + what)
 	return atomic.CompareAndSwapUint64(p, o, n)
